@@ -125,12 +125,17 @@ k!(c01_bitops, 10, |arena| {
 // ---- multiplication: fits-i64 path (result through fixnum!) ----
 macro_rules! mul_small {
     ($name:ident, $bx:expr, $by:expr) => {
+        divlike!($name, $bx, $by, i128);
+    };
+    // $t: integer type of the oracle arithmetic; it must hold 2^($bx + $by) (a narrower
+    // multiplier is a much smaller SAT problem than the 128-bit one)
+    ($name:ident, $bx:expr, $by:expr, $t:ty) => {
         k!($name, 10, |arena| {
             let a = any_fixnum();
             let b = any_fixnum();
-            let (x, y) = (a.get_num() as i128, b.get_num() as i128);
-            kani::assume(x > -(1i128 << $bx) && x < (1i128 << $bx));
-            kani::assume(y > -(1i128 << $by) && y < (1i128 << $by));
+            kani::assume(a.get_num() > -(1i64 << $bx) && a.get_num() < (1i64 << $bx));
+            kani::assume(b.get_num() > -(1i64 << $by) && b.get_num() < (1i64 << $by));
+            let (x, y) = (a.get_num() as $t, b.get_num() as $t);
             let exact = x * y;
             match mul(Number::Fixnum(a), Number::Fixnum(b), arena) {
                 Ok(r) => check_via_from(r, exact),
@@ -183,12 +188,17 @@ fn c01_mul_overflow_delegates() {
 // ---- truncating division / remainder, flooring mod / div ----
 macro_rules! divlike {
     ($name:ident, $bx:expr, $by:expr) => {
+        divlike!($name, $bx, $by, i128);
+    };
+    // $t: integer type of the oracle arithmetic; it must hold 2^($bx + $by) (a narrower
+    // multiplier is a much smaller SAT problem than the 128-bit one)
+    ($name:ident, $bx:expr, $by:expr, $t:ty) => {
         k!($name, 10, |arena| {
             let a = any_fixnum();
             let b = any_fixnum();
-            let (x, y) = (a.get_num() as i128, b.get_num() as i128);
-            kani::assume(x > -(1i128 << $bx) && x < (1i128 << $bx));
-            kani::assume(y > -(1i128 << $by) && y < (1i128 << $by));
+            kani::assume(a.get_num() > -(1i64 << $bx) && a.get_num() < (1i64 << $bx));
+            kani::assume(b.get_num() > -(1i64 << $by) && b.get_num() < (1i64 << $by));
+            let (x, y) = (a.get_num() as $t, b.get_num() as $t);
             let q = idiv(Number::Fixnum(a), Number::Fixnum(b), arena);
             let r = remainder(Number::Fixnum(a), Number::Fixnum(b), arena);
             let m = modulus(Number::Fixnum(a), Number::Fixnum(b), arena);
@@ -199,7 +209,10 @@ macro_rules! divlike {
                 // truncating quotient / remainder: x = q*y + r, |r| < |y|, sign(r) = sign(x)
                 let (qv, rv) = match (&q, &r) {
                     (Ok(Number::Fixnum(qf)), Ok(Number::Fixnum(rf))) => {
-                        (qf.get_num() as i128, rf.get_num() as i128)
+                        // |q| <= |x| and |r| < |y|: both fit the oracle type
+                        assert!(qf.get_num() >= -(1i64 << $bx) && qf.get_num() <= (1i64 << $bx));
+                        assert!(rf.get_num() > -(1i64 << $by) && rf.get_num() < (1i64 << $by));
+                        (qf.get_num() as $t, rf.get_num() as $t)
                     }
                     _ => {
                         assert!(false);
@@ -213,7 +226,8 @@ macro_rules! divlike {
                 // flooring modulus: same residue class, sign of the divisor
                 match m {
                     Ok(Number::Fixnum(mf)) => {
-                        let mv = mf.get_num() as i128;
+                        assert!(mf.get_num() > -(1i64 << $by) && mf.get_num() < (1i64 << $by));
+                        let mv = mf.get_num() as $t;
                         assert!(mv < ay && mv > -ay);
                         assert!(mv == 0 || (mv < 0) == (y < 0));
                         assert!(mv == rv || mv == rv + y);
@@ -229,9 +243,9 @@ macro_rules! divlike {
         });
     };
 }
-divlike!(c01_div_rem_mod_16x16, 16, 16);
+divlike!(c01_div_rem_mod_16x16, 16, 16, i64);
 divlike!(c01_div_rem_mod_55x8, 55, 8);
-divlike!(c01_div_rem_mod_24x24, 24, 24);
+divlike!(c01_div_rem_mod_24x24, 24, 24, i64);
 
 // MIN // -1 = 2^55 does not fit: must come back as a bignum of exactly that value
 k!(c01_idiv_min_by_minus_one, 10, |arena| {
@@ -246,9 +260,9 @@ k!(c01_idiv_min_by_minus_one, 10, |arena| {
 k!(c01_int_floor_div, 10, |arena| {
     let a = any_fixnum();
     let b = any_fixnum();
-    let (x, y) = (a.get_num() as i128, b.get_num() as i128);
-    kani::assume(x > -(1i128 << 8) && x < (1i128 << 8));
-    kani::assume(y > -(1i128 << 8) && y < (1i128 << 8));
+    let (x, y) = (a.get_num() as i32, b.get_num() as i32);
+    kani::assume(a.get_num() > -(1i64 << 8) && a.get_num() < (1i64 << 8));
+    kani::assume(b.get_num() > -(1i64 << 8) && b.get_num() < (1i64 << 8));
     let d = int_floor_div(Number::Fixnum(a), Number::Fixnum(b), arena);
     if y == 0 {
         assert!(d.is_err());
@@ -256,7 +270,8 @@ k!(c01_int_floor_div, 10, |arena| {
     } else {
         match d {
             Ok(Number::Fixnum(df)) => {
-                let dv = df.get_num() as i128;
+                assert!(df.get_num() >= -(1i64 << 8) && df.get_num() <= (1i64 << 8));
+                let dv = df.get_num() as i32;
                 // floor(x / y): dv*y <= x < (dv+1)*y for y > 0, reversed for y < 0
                 if y > 0 {
                     assert!(dv * y <= x && x < (dv + 1) * y);
